@@ -14,7 +14,8 @@ CONSTANTS Keys,           \* set of integer keys (duplicates matter: small set)
           MaxSize,        \* bound on the number of elements
           SiftUpOnRemove, \* TRUE: removePos restores order in both directions (the
                           \* repaired code); FALSE: percolateDown only (the defect D1)
-          MaxBulk         \* longest vector handed to insert(vector)/buildFrom/sort
+          MaxBulk,        \* longest vector handed to insert(vector)/buildFrom/sort
+          Core            \* TRUE: only insert / remove / pop / update / clear (deep heaps, small alphabet)
 
 VARIABLES arr,     \* Seq(Keys): keys in storage order
           anon,    \* TRUE while the heap holds elements created by buildFrom(), for which
@@ -148,14 +149,15 @@ Clear ==
 
 Next ==
     \/ \E k \in Keys : Insert(k)
-    \/ \E ks \in SeqsUpTo(Keys, MaxBulk) : InsertMany(ks)
     \/ \E p \in 1..Len(arr) : Remove(p)
     \/ Pop
     \/ \E p \in 1..Len(arr), k \in Keys : Update(p, k)
-    \/ \E p \in 1..Len(arr), q \in 1..Len(arr), k \in Keys, j \in Keys : PerturbRebuild(p, k, q, j)
-    \/ \E ks \in SeqsUpTo(Keys, MaxSize) : BuildFrom(ks)
-    \/ \E ks \in SeqsUpTo(Keys, MaxBulk) : Sort(ks)
     \/ Clear
+    \/ /\ ~Core
+       /\ \/ \E ks \in SeqsUpTo(Keys, MaxBulk) : InsertMany(ks)
+          \/ \E p \in 1..Len(arr), q \in 1..Len(arr), k \in Keys, j \in Keys : PerturbRebuild(p, k, q, j)
+          \/ \E ks \in SeqsUpTo(Keys, MaxSize) : BuildFrom(ks)
+          \/ \E ks \in SeqsUpTo(Keys, MaxBulk) : Sort(ks)
 
 Spec == Init /\ [][Next]_vars
 
